@@ -172,14 +172,15 @@ Proof.
   - assert (nval n = 0) by lia. replace (nval n =? 0) with true by lia. repeat split; auto; lia.
 Qed.
 
-Lemma m_atom_inv s v s' : m_atom s = Ok (v, s') ->
-  exists n, tok n (rest s) (rest s') /\ nval n = v /\ gatom_in n = true.
+(* the reader's matchAtom with the configured limit vm (ProgramReader::setMaxVar; default sm_varMax) *)
+Lemma m_atom_inv vm s v s' : m_atom_v vm s = Ok (v, s') ->
+  exists n, tok n (rest s) (rest s') /\ nval n = v /\ gratom_in vm n = true.
 Proof.
-  unfold m_atom. destruct (a_match_int false s) as [[z|] s1] eqn:E; [|discriminate].
-  destruct ((atomMin <=? z) && (z <=? sm_varMax)) eqn:Er; [|discriminate]. intros H. inversion H; subst. clear H.
-  change sm_varMax with atomMax in Er. change atomMin with 1 in Er.
+  unfold m_atom_v. destruct (a_match_int false s) as [[z|] s1] eqn:E; [|discriminate].
+  destruct ((atomMin <=? z) && (z <=? vm)) eqn:Er; [|discriminate]. intros H. inversion H; subst. clear H.
+  change atomMin with 1 in Er.
   destruct (match_int_inv _ _ _ E) as (n & Et & Hw & Hd & Hn & Hs). pose proof (nval_nonneg n Hd) as H0.
-  exists n. unfold tok, gnum_ok, sg_ok, gatom_in. rewrite Hw, Hd, Hn.
+  exists n. unfold tok, gnum_ok, sg_ok, gratom_in. rewrite Hw, Hd, Hn.
   destruct Hs as [[-> ->] | [[-> ->] | [-> ->]]].
   - repeat split; auto.
   - repeat split; auto.
@@ -243,12 +244,12 @@ Proof.
   replace ((0 <=? nval n) && (nval n <=? max)) with true by lia. exists ln'. reflexivity.
 Qed.
 
-Lemma m_atom_fwd n k ln : gnum_ok n k = true -> gatom_in n = true ->
-  yields (m_atom (amk (r_gnum n ++ k) ln)) (nval n) k.
+Lemma m_atom_fwd vm n k ln : vm <= INT64_MAX -> gnum_ok n k = true -> gratom_in vm n = true ->
+  yields (m_atom_v vm (amk (r_gnum n ++ k) ln)) (nval n) k.
 Proof.
-  intros Hok Hin. unfold m_atom. unfold gatom_in in Hin.
-  destruct (match_int_fwd n k ln Hok ltac:(unfold INT64_MAX, atomMax in *; lia)) as [ln' E]. rewrite E.
-  change sm_varMax with atomMax. change atomMin with 1. rewrite Hin. exists ln'. reflexivity.
+  intros Hvm Hok Hin. unfold m_atom_v. unfold gratom_in in Hin.
+  destruct (match_int_fwd n k ln Hok ltac:(lia)) as [ln' E]. rewrite E.
+  change atomMin with 1. rewrite Hin. exists ln'. reflexivity.
 Qed.
 
 (* every number token takes at least one byte *)
